@@ -473,7 +473,7 @@ def check_c07(pid, tier, replay):
         hs = []
         for i in range(n):
             song = gen_seq.random_song(rng, maxev=10 if tier == "quick" else 24,
-                                       ntracks=None if tier == "quick" else rng.choice([1, 2, 3, 4, 6, 8]))
+                                       ntracks=None if tier == "quick" else rng.choice([1, 2, 3, 4, 6, 8]), tempo_rich=rng.random() < 0.3)
             hs.append(gen_seq.play_history(rng, song, rng.choice(["plain", "plain", "gating"])))
         # audio-driven playback (short songs: rendering is real)
         for i in range(40 if tier == "quick" else 400):
@@ -489,7 +489,8 @@ def check_c09(pid, tier, replay):
         n = 220 if tier == "quick" else 2500
         hs = []
         for i in range(n):
-            song = gen_seq.random_song(rng, maxev=8 if tier == "quick" else 16, loops="random" if rng.random() < 0.85 else "none")
+            song = gen_seq.random_song(rng, maxev=8 if tier == "quick" else 16, loops="random" if rng.random() < 0.85 else "none",
+                                       tempo_rich=rng.random() < 0.35)
             hs.append(gen_seq.play_history(rng, song, "loop" if rng.random() < 0.9 else "plain"))
         return hs
     return run_seq_family(pid, tier, replay, mk)
@@ -501,7 +502,8 @@ def check_c08(pid, tier, replay):
         n = 300 if tier == "quick" else 3000
         hs = []
         for i in range(n):
-            song = gen_seq.random_song(rng, maxev=10 if tier == "quick" else 20)
+            song = gen_seq.random_song(rng, maxev=10 if tier == "quick" else 20, loops=rng.choice(["none", "none", "random"]),
+                                       tempo_rich=rng.random() < 0.5)
             # melodic channels only: no percussion minimum-life residue after the seek
             hs.append(gen_seq.seek_history(rng, song))
         return hs
